@@ -187,6 +187,22 @@ def run_pipe(fields):
         old = root.level
         root.setLevel(logging.INFO)
     try:
+        if "2" in flags:
+            # several anonymize_io calls on ONE FileAnonymizer: the texts are separated by a line "\x08"; outputs joined by \x07
+            texts, cur = [], []
+            for l in lines:
+                if l == "\x08":
+                    texts.append(cur)
+                    cur = []
+                else:
+                    cur.append(l)
+            texts.append(cur)
+            outs = []
+            for t in texts:
+                sk = _Sink()
+                fa.anonymize_io(io.StringIO("".join(t)), sk)
+                outs.append("".join(sk.parts))
+            return "\x07".join(outs)
         fa.anonymize_io(io.StringIO("".join(lines)), sink)
     except Exception as e:  # noqa
         return "RAISED:" + type(e).__name__
@@ -330,6 +346,8 @@ def run_files(fields):
         single = opts.get("single")
         src = os.path.join(ind, single) if single else ind
         dst = os.path.join(root, "single.out") if single else outd
+        if single and opts.get("single_out_is_dir"):
+            os.makedirs(dst)
         try:
             if mode == "main":
                 argv = ["-i", src, "-o", dst]
